@@ -76,6 +76,10 @@ type Result struct {
 type helper struct {
 	key   string
 	decl  *ast.FuncDecl
+	lit   *ast.FuncLit     // a local closure (`warn := func(…){…}`) instead of a declared helper
+	uses  int              // closure: number of call sites
+	inl   int              // closure: call sites inlined
+	sig   *types.Signature // signature (of obj or of the literal)
 	obj   *types.Func
 	file  *ast.File
 	pkg   *packages.Package
@@ -97,6 +101,8 @@ type planner struct {
 	addImports map[*ast.File]map[string]string // name -> path
 	curFile    *ast.File
 	curFunc    string
+	closures   map[*types.Var]*helper
+	deferred   []ast.Stmt // deferred calls of the body being expanded (run before each break)
 	pkgByName  map[string]*types.Package
 	inlined    map[*types.Func]int // call sites inlined per helper (all)
 	topInlined map[*types.Func]int // call sites inlined into functions that stay
@@ -132,10 +138,11 @@ func Plan(pkgs []*packages.Package, known map[string]bool, module string) *Resul
 					res.Skipped = append(res.Skipped, key+": "+why)
 					continue
 				}
-				pl.helpers[obj] = &helper{key: key, decl: fd, obj: obj, file: f, pkg: p}
+				pl.helpers[obj] = &helper{key: key, decl: fd, obj: obj, sig: obj.Type().(*types.Signature), file: f, pkg: p}
 			}
 		}
-		if len(pl.helpers) == 0 {
+		pl.findClosures()
+		if len(pl.helpers) == 0 && len(pl.closures) == 0 {
 			continue
 		}
 		pl.run()
@@ -152,13 +159,19 @@ func (pl *planner) notInlinable(fd *ast.FuncDecl, obj *types.Func) string {
 	if fd.Name.Name == "init" || fd.Name.Name == "main" {
 		return "init/main"
 	}
+	return bodyNotInlinable(fd.Body)
+}
+
+func bodyNotInlinable(body *ast.BlockStmt) string {
 	why := ""
-	ast.Inspect(fd.Body, func(n ast.Node) bool {
+	ast.Inspect(body, func(n ast.Node) bool {
 		switch x := n.(type) {
 		case *ast.FuncLit:
 			return false
 		case *ast.DeferStmt:
-			why = "defer"
+			if !simpleTopDefer(body, x) {
+				why = "defer"
+			}
 		case *ast.BranchStmt:
 			if x.Tok == token.GOTO {
 				why = "goto"
@@ -173,6 +186,57 @@ func (pl *planner) notInlinable(fd *ast.FuncDecl, obj *types.Func) string {
 		return why == ""
 	})
 	return why
+}
+
+// simpleTopDefer: `defer x.m(simple args)` as a statement of the function's own
+// block, before any statement that can return. Such a defer is run explicitly
+// at every return of the inlined body (panics aside, that is what it does).
+func simpleTopDefer(body *ast.BlockStmt, d *ast.DeferStmt) bool {
+	idx := -1
+	for i, s := range body.List {
+		if s == ast.Stmt(d) {
+			idx = i
+		}
+	}
+	if idx < 0 {
+		return false
+	}
+	// no return before (or in the same position as) the defer
+	for _, s := range body.List[:idx] {
+		has := false
+		ast.Inspect(s, func(n ast.Node) bool {
+			switch n.(type) {
+			case *ast.FuncLit:
+				return false
+			case *ast.ReturnStmt:
+				has = true
+			}
+			return !has
+		})
+		if has {
+			return false
+		}
+	}
+	simple := func(e ast.Expr) bool {
+		ok := true
+		ast.Inspect(e, func(n ast.Node) bool {
+			switch n.(type) {
+			case *ast.CallExpr, *ast.FuncLit, *ast.UnaryExpr, *ast.BinaryExpr, *ast.IndexExpr, *ast.TypeAssertExpr:
+				ok = false
+			}
+			return ok
+		})
+		return ok
+	}
+	if !simple(d.Call.Fun) {
+		return false
+	}
+	for _, a := range d.Call.Args {
+		if !simple(a) {
+			return false
+		}
+	}
+	return true
 }
 
 func (pl *planner) run() {
@@ -264,6 +328,7 @@ func (pl *planner) run() {
 			before := len(pl.res.Inlined)
 			pl.rewriteBlockList(&fd.Body.List, 0)
 			pl.rewriteNested(fd.Body, 0)
+			pl.dropDeadClosures(fd.Body)
 			if len(pl.res.Inlined) > before {
 				pl.changed[f] = true
 			}
@@ -429,11 +494,148 @@ func (pl *planner) target(c *ast.CallExpr) *helper {
 	if id == nil {
 		return nil
 	}
+	if v, isVar := pl.useOf(id).(*types.Var); isVar {
+		if h := pl.closures[v]; h != nil {
+			if h.body == nil {
+				// process lazily (a closure may call helpers or other closures)
+				h.body = &ast.BlockStmt{} // recursion guard: a closure calling itself is not expanded
+				save, saveFn := pl.curFile, pl.curFunc
+				body := pl.clone(h.lit.Body).(*ast.BlockStmt)
+				pl.rewriteBlockList(&body.List, 1)
+				pl.rewriteNested(body, 1)
+				h.body = body
+				pl.curFile, pl.curFunc = save, saveFn
+			}
+			return h
+		}
+		return nil
+	}
 	fn, _ := pl.useOf(id).(*types.Func)
 	if fn == nil {
 		return nil
 	}
 	return pl.helpers[fn]
+}
+
+// dropDeadClosures removes the definition of a closure all of whose calls were
+// inlined (it would otherwise keep the variables it captures on the heap).
+func (pl *planner) dropDeadClosures(body *ast.BlockStmt) {
+	dead := func(s ast.Stmt) bool {
+		as, ok := s.(*ast.AssignStmt)
+		if !ok || len(as.Lhs) != 1 || len(as.Rhs) != 1 {
+			return false
+		}
+		id, ok := as.Lhs[0].(*ast.Ident)
+		if !ok {
+			return false
+		}
+		var v *types.Var
+		if as.Tok == token.DEFINE {
+			if _, isLit := as.Rhs[0].(*ast.FuncLit); !isLit {
+				return false
+			}
+			oid, _ := pl.root(id).(*ast.Ident)
+			if oid == nil {
+				return false
+			}
+			v, _ = pl.pkg.TypesInfo.Defs[oid].(*types.Var)
+		} else if as.Tok == token.ASSIGN && id.Name == "_" {
+			// the `_ = name` we added
+			rid, ok := as.Rhs[0].(*ast.Ident)
+			if !ok {
+				return false
+			}
+			for cv := range pl.closures {
+				if cv.Name() == rid.Name && pl.closures[cv].inl == pl.closures[cv].uses && pl.closures[cv].inl > 0 {
+					v = cv
+				}
+			}
+			if v == nil {
+				return false
+			}
+			// only blanks we generated have no position
+			if rid.Pos().IsValid() {
+				return false
+			}
+		}
+		h := pl.closures[v]
+		return v != nil && h != nil && h.inl == h.uses && h.inl > 0
+	}
+	filter := func(list *[]ast.Stmt) {
+		var out []ast.Stmt
+		for _, s := range *list {
+			if !dead(s) {
+				out = append(out, s)
+			}
+		}
+		*list = out
+	}
+	ast.Inspect(body, func(n ast.Node) bool {
+		switch x := n.(type) {
+		case *ast.BlockStmt:
+			filter(&x.List)
+		case *ast.CaseClause:
+			filter(&x.Body)
+		case *ast.CommClause:
+			filter(&x.Body)
+		}
+		return true
+	})
+}
+
+// findClosures registers local function literals that are bound once to a
+// variable which is only ever called: `warn := func(err error) {…}` … `warn(err)`.
+func (pl *planner) findClosures() {
+	pl.closures = map[*types.Var]*helper{}
+	info := pl.pkg.TypesInfo
+	for _, f := range pl.pkg.Syntax {
+		called := map[*ast.Ident]bool{}
+		cand := map[*types.Var]*ast.FuncLit{}
+		ast.Inspect(f, func(n ast.Node) bool {
+			switch x := n.(type) {
+			case *ast.CallExpr:
+				if id, ok := x.Fun.(*ast.Ident); ok {
+					called[id] = true
+				}
+			case *ast.AssignStmt:
+				if x.Tok == token.DEFINE && len(x.Lhs) == 1 && len(x.Rhs) == 1 {
+					if id, ok := x.Lhs[0].(*ast.Ident); ok {
+						if lit, ok := x.Rhs[0].(*ast.FuncLit); ok {
+							if v, ok := info.Defs[id].(*types.Var); ok {
+								cand[v] = lit
+							}
+						}
+					}
+				}
+			}
+			return true
+		})
+		if len(cand) == 0 {
+			continue
+		}
+		bad := map[*types.Var]bool{}
+		nUse := map[*types.Var]int{}
+		for id, o := range info.Uses {
+			v, ok := o.(*types.Var)
+			if !ok || cand[v] == nil {
+				continue
+			}
+			nUse[v]++
+			if !called[id] {
+				bad[v] = true // passed around, reassigned, compared: keep it a value
+			}
+		}
+		for v, lit := range cand {
+			if bad[v] || nUse[v] == 0 {
+				continue
+			}
+			sig, ok := info.TypeOf(lit).(*types.Signature)
+			if !ok || bodyNotInlinable(lit.Body) != "" {
+				continue
+			}
+			pl.closures[v] = &helper{key: "closure " + v.Name(), lit: lit, sig: sig, file: f, pkg: pl.pkg, uses: nUse[v]}
+		}
+	}
 }
 
 // isPureCall: conversions and a few builtins evaluate nothing observable.
@@ -551,6 +753,19 @@ func (pl *planner) rewriteBlockList(list *[]ast.Stmt, depth int) {
 	var out []ast.Stmt
 	for _, s := range *list {
 		out = append(out, pl.rewriteStmt(s, depth)...)
+		// a closure whose calls were inlined must still count as used
+		if as, ok := s.(*ast.AssignStmt); ok && as.Tok == token.DEFINE && len(as.Lhs) == 1 && len(as.Rhs) == 1 {
+			if id, ok := as.Lhs[0].(*ast.Ident); ok {
+				if _, isLit := as.Rhs[0].(*ast.FuncLit); isLit {
+					oid, _ := pl.root(id).(*ast.Ident)
+					if oid != nil {
+						if v, ok := pl.pkg.TypesInfo.Defs[oid].(*types.Var); ok && pl.closures[v] != nil {
+							out = append(out, &ast.AssignStmt{Lhs: []ast.Expr{ast.NewIdent("_")}, Tok: token.ASSIGN, Rhs: []ast.Expr{ast.NewIdent(id.Name)}})
+						}
+					}
+				}
+			}
+		}
 	}
 	*list = out
 }
@@ -747,7 +962,7 @@ func (pl *planner) inlineOnce(s ast.Stmt) (pre []ast.Stmt, ns ast.Stmt, ok bool)
 	}
 	// multi-value call on the right of an assignment / return / var
 	h := pl.target(f.found)
-	nres := h.obj.Type().(*types.Signature).Results().Len()
+	nres := h.sig.Results().Len()
 	if nres != 1 {
 		if *slot != ast.Expr(f.found) {
 			return nil, nil, false // tuple cannot be nested in an expression
@@ -895,7 +1110,7 @@ func (pl *planner) expandMulti(c *ast.CallExpr) (pre []ast.Stmt, rs []ast.Expr, 
 	if h == nil || h.body == nil {
 		return nil, nil, false
 	}
-	sig := h.obj.Type().(*types.Signature)
+	sig := h.sig
 	skip := func(why string) ([]ast.Stmt, []ast.Expr, bool) {
 		pl.res.Skipped = append(pl.res.Skipped, fmt.Sprintf("%s: call in %s not inlined: %s", h.key, pl.curFunc, why))
 		return nil, nil, false
@@ -1045,7 +1260,28 @@ func (pl *planner) expandMulti(c *ast.CallExpr) (pre []ast.Stmt, rs []ast.Expr, 
 	}
 	label := pl.fresh("L")
 	body := pl.clone(h.body).(*ast.BlockStmt)
+	// simple top-level defers run, last first, wherever the body returns
+	var deferred []ast.Stmt
+	{
+		var rest []ast.Stmt
+		for _, st := range body.List {
+			if d, ok := st.(*ast.DeferStmt); ok {
+				deferred = append([]ast.Stmt{&ast.ExprStmt{X: d.Call}}, deferred...)
+				continue
+			}
+			rest = append(rest, st)
+		}
+		body.List = rest
+	}
+	if len(deferred) > 0 && named {
+		return skip("defer with named results")
+	}
+	pl.deferred = deferred
 	pl.rewriteReturns(body, label, resNames, sig, named)
+	pl.deferred = nil
+	for _, d := range deferred {
+		body.List = append(body.List, pl.clone(d).(ast.Stmt))
+	}
 	body.List = append(body.List, &ast.BranchStmt{Tok: token.BREAK, Label: ast.NewIdent(label)})
 	loop := &ast.LabeledStmt{Label: ast.NewIdent(label), Stmt: &ast.ForStmt{Body: body}}
 	inner.List = append(inner.List, loop)
@@ -1055,12 +1291,17 @@ func (pl *planner) expandMulti(c *ast.CallExpr) (pre []ast.Stmt, rs []ast.Expr, 
 	if pl.inlined == nil {
 		pl.inlined = map[*types.Func]int{}
 	}
-	pl.inlined[h.obj]++
-	if pl.top {
-		if pl.topInlined == nil {
-			pl.topInlined = map[*types.Func]int{}
+	if h.lit != nil {
+		h.inl++
+	}
+	if h.obj != nil {
+		pl.inlined[h.obj]++
+		if pl.top {
+			if pl.topInlined == nil {
+				pl.topInlined = map[*types.Func]int{}
+			}
+			pl.topInlined[h.obj]++
 		}
-		pl.topInlined[h.obj]++
 	}
 	return pre, rs, true
 }
@@ -1094,6 +1335,9 @@ func (pl *planner) rewriteReturns(body *ast.BlockStmt, label string, res []strin
 				rhs = r.Results
 			}
 			blk.List = append(blk.List, &ast.AssignStmt{Lhs: lhs, Tok: token.ASSIGN, Rhs: rhs})
+		}
+		for _, d := range pl.deferred {
+			blk.List = append(blk.List, pl.clone(d).(ast.Stmt))
 		}
 		blk.List = append(blk.List, &ast.BranchStmt{Tok: token.BREAK, Label: ast.NewIdent(label)})
 		return blk
@@ -1285,6 +1529,13 @@ func (pl *planner) shadowed(h *helper, scope *types.Scope, pos token.Pos) string
 				_, co := scope.LookupParent(id.Name, pos)
 				if co != o {
 					why = "identifier " + id.Name + " is shadowed at the call site"
+					return false
+				}
+			} else if h.lit != nil && par != nil && (o.Pos() < h.lit.Pos() || o.Pos() > h.lit.End()) {
+				// a variable the closure captures must be the same variable at the call site
+				_, co := scope.LookupParent(id.Name, pos)
+				if co != o {
+					why = "captured variable " + id.Name + " is not visible (or shadowed) at the call site"
 					return false
 				}
 			}
